@@ -347,6 +347,8 @@ func (d *Device) ProcessEvents(inputEvents <-chan *input.InputEvent) {
 		log.Info("active midi notes cleanup", d.logFields(logger.Debug)...)
 	}
 
+	// the LED loop may still be reading the trackers (it holds eventProcessMutex while it does)
+	d.eventProcessMutex.Lock()
 	for evcode := range d.noteTracker {
 		d.NoteOff(&input.InputEvent{
 			Source: input.Handler{
@@ -364,6 +366,7 @@ func (d *Device) ProcessEvents(inputEvents <-chan *input.InputEvent) {
 	for identifier := range d.analogNoteTracker {
 		d.AnalogNoteOff(identifier, &input.InputEvent{})
 	}
+	d.eventProcessMutex.Unlock()
 
 	log.Info("virtual midi device waiting...", d.logFields(logger.Debug)...)
 	wg.Wait()
